@@ -169,6 +169,9 @@ func pools(r *rng.R) (core, full []val) {
 		bsVal([]byte{0xff, 0xff}, "2nm"), bsVal(rep(0, 32), "32z"), bsVal(append(rep(0xff, 31), 0x7f), "32max"),
 		bsVal(r.Bytes(32), "32r"), bsVal(r.Bytes(31), "31r"), bsVal(rep(0xff, 33), "33"), bsVal(append(rep(0, 32), 1), "33"),
 		bsVal(rep(0x41, 64), "64"), bsVal(rep(0x41, 65), "65"), bsVal([]byte("hello"), "5"), bsVal([]byte{0xc0, 0x80}, "2bad-utf8"),
+		bsVal([]byte{0xc3, 0xa9}, "2utf8"), bsVal([]byte{0xf0, 0x9f, 0x98, 0x80}, "4utf8"), bsVal([]byte{0xed, 0xa0, 0x80}, "3surrogate"),
+		bsVal([]byte{0xe0, 0x80, 0x80}, "3overlong"), bsVal([]byte{0xf4, 0x90, 0x80, 0x80}, "4beyond"), bsVal([]byte{0xc2}, "1truncated"),
+		bsVal([]byte{0xef, 0xbf, 0xbe}, "3utf8"), bsVal([]byte{0x41, 0x00, 0x42}, "3nul"),
 		bufVal(rep(0, 32), "32"), bufVal(rep(0xff, 33), "33"), bufVal([]byte{1, 2, 3}, "3"),
 		val{cat(pushI(1), pushI(2), pushI(2), op(s.PACK)), "arr2", "array[2,1]"},
 		val{cat(pushI(1), pushI(2), pushI(2), op(s.PACKSTRUCT)), "struct2", "struct[2,1]"},
@@ -202,6 +205,7 @@ func sweepOps() (un, bin, tern []sweepOp) {
 		s.REMOVE, s.APPEND, s.ASSERTMSG, s.JMPEQ, s.JMPNE, s.JMPGT, s.JMPGE, s.JMPLT, s.JMPLE} {
 		bin = append(bin, sweepOp{o, 2, nil})
 	}
+	bin = append(bin, sweepOp{s.PUSH1, 2, []byte{byte(s.PACKMAP)}}, sweepOp{s.PUSH2, 2, []byte{byte(s.PACKSTRUCT)}})
 	for _, o := range []s.Op{s.WITHIN, s.MODMUL, s.MODPOW, s.SUBSTR, s.SETITEM} {
 		tern = append(tern, sweepOp{o, 3, nil})
 	}
@@ -271,13 +275,11 @@ func spliceCase(r *rng.R, i int) ([]byte, string) {
 	case 2:
 		return cat(data(), op(s.DUP), ix(), op(s.LEFT)), "LEFT"
 	case 3:
-		// RIGHT with a count of 2^31-1 makes the code under test allocate 2 GiB
-		// before it validates the count (vm.go RIGHT: make([]byte, l) precedes the
-		// slice expression); the result is still FAULT on both sides, so the
-		// sweep keeps RIGHT counts below 2^24 to stay runnable on 16 workers.
+		// (RIGHT used to allocate the requested count - up to 2 GiB - before
+		// validating it; repaired in /repo by 7456dc7, so huge counts are swept.)
 		c := small()
 		if r.Chance(1, 6) {
-			c = []*big.Int{big.NewInt(-1), pow2(24, -1), pow2(31, 0), pow2(32, 0), new(big.Int).Neg(pow2(31, 0))}[r.Intn(5)]
+			c = []*big.Int{big.NewInt(-1), pow2(31, -1), pow2(31, 0), pow2(32, 0), new(big.Int).Neg(pow2(31, 0))}[r.Intn(5)]
 		}
 		return cat(data(), op(s.DUP), pushInt(c), op(s.RIGHT)), "RIGHT"
 	case 4, 5:
@@ -479,7 +481,7 @@ func (g *seqGen) produceFor(c byte) {
 	case 'n':
 		x := int64(r.Intn(4))
 		if r.Chance(1, 8) {
-			x = []int64{-1, 4, 5, 255, 256, 16777215}[r.Intn(6)]
+			x = []int64{-1, 4, 5, 255, 256, 2147483647}[r.Intn(6)]
 		}
 		g.emit("PUSHn", pushI(x))
 		g.pushT(aI)
@@ -1287,6 +1289,23 @@ func limitsCase(i int) ([]byte, string) {
 	fan := func(n, k int) []byte {
 		return cat(rpt(op(s.PUSH1), k), pushI(int64(k)), op(s.PACKSTRUCT), rpt(op(s.DUP), n-1), pushI(int64(n)), op(s.PACKSTRUCT))
 	}
+	if i >= 3*98 {
+		j := i - 3*98
+		if j < 8 { // k nested TRYs in one frame (limit 16), optionally 16 more in a callee
+			k := 14 + j%4
+			sc := rpt(op(s.TRY, 3, 0), k)
+			if j >= 4 {
+				sc = cat(rpt(op(s.TRY, 3, 0), 16), op(s.CALL, 3), op(s.RET), rpt(op(s.TRY, 3, 0), k), op(s.PUSH1), op(s.RET))
+			}
+			return cat(sc, op(s.PUSH1)), fmt.Sprintf("TRY-nesting|%d|callee=%v", k, j >= 4)
+		}
+		// recursion n levels deep (invocation stack limit 1024, entry included)
+		n := []int64{10, 1022, 1023, 1024, 1025, 2000}[(j-8)%6]
+		// 0: PUSHINT16 n; 3: CALL f(+3); 5: RET; f=6: DEC DUP PUSH0 JMPLE end(+4) CALL f(-5) end: RET
+		sc := cat(op(s.PUSHINT16, byte(n), byte(n>>8)), op(s.CALL, 3), op(s.RET),
+			op(s.DEC), op(s.DUP), op(s.PUSH0), op(s.JMPLE, 4), op(s.CALL, 0xfb), op(s.RET))
+		return sc, fmt.Sprintf("recursion-depth|%d", n)
+	}
 	switch kind := i % 3; kind {
 	case 0:
 		// [bs(l1), [bs(l2)]] compared with an equal, separately built value:
@@ -1396,4 +1415,81 @@ func eqCase(i int, vals []val) ([]byte, string) {
 	default: // a value against its own APPENDed (struct-copied) member
 		return cat(op(s.NEWARRAY0), a.code, op(s.OVER), op(s.OVER), op(s.APPEND), op(s.SWAP), op(s.PUSH0), op(s.PICKITEM), op(s.EQUAL)), "EQUAL(x, copy stored by APPEND) x=" + a.desc
 	}
+}
+
+// endfinCase enumerates what may be executed inside a finally block that runs
+// because of a pending (uncaught) exception: ENDFINALLY / ENDTRY / RET / THROW /
+// nothing, placed inline, inside a nested try block, inside a nested catch block
+// or in a called function, with and without an outer catch.
+func endfinCase(i int) ([]byte, string) {
+	x := mixRadix(i, 5, 4, 2)
+	what, where, outer := x[0], x[1], x[2] == 1
+	var it []asmItem
+	ins := func(c []byte) { it = append(it, asmItem{code: c}) }
+	ref := func(o s.Op, l string) { it = append(it, asmItem{code: []byte{byte(o)}, ref: l}) }
+	try := func(c, f string) { it = append(it, asmItem{code: []byte{byte(s.TRY)}, ref: c, ref2: f}) }
+	mark := func(l string) { it = append(it, asmItem{label: l}) }
+	X := func() {
+		switch what {
+		case 0:
+			ins(op(s.ENDFINALLY))
+		case 1:
+			ref(s.ENDTRY, "X")
+			mark("X")
+		case 2:
+			ins(op(s.NOP))
+		case 3:
+			ins(op(s.RET))
+		default:
+			ins(op(s.PUSH7))
+			ins(op(s.THROW))
+		}
+	}
+	if outer {
+		try("Lc1", "")
+	}
+	try("", "Lf2")
+	ins(op(s.PUSH1))
+	ins(op(s.THROW))
+	mark("Lf2")
+	switch where {
+	case 0:
+		X()
+	case 1:
+		try("Lc3", "")
+		X()
+		ref(s.ENDTRY, "Le3")
+		mark("Lc3")
+		ins(op(s.PUSH5))
+		ref(s.ENDTRY, "Le3")
+		mark("Le3")
+	case 2:
+		try("Lc3", "")
+		ins(op(s.NEWARRAY0))
+		ins(op(s.PUSH0))
+		ins(op(s.PICKITEM)) // catchable engine exception replaces the pending one
+		mark("Lc3")
+		X()
+		ref(s.ENDTRY, "Le3")
+		mark("Le3")
+	default:
+		ref(s.CALL, "F")
+	}
+	ins(op(s.ENDFINALLY))
+	ins(op(s.PUSH3))
+	if outer {
+		ref(s.ENDTRY, "Le1")
+		mark("Lc1")
+		ins(op(s.PUSH4))
+		ref(s.ENDTRY, "Le1")
+		mark("Le1")
+	}
+	ins(op(s.PUSH6))
+	ins(op(s.RET))
+	mark("F")
+	if where == 3 {
+		X()
+	}
+	ins(op(s.RET))
+	return assemble(it), fmt.Sprintf("in-finally|what%d|where%d|outercatch=%v", what, where, outer)
 }
